@@ -160,3 +160,541 @@ Qed.
 (* every model command is carried by a variant of the Rust enum Command *)
 Lemma tag_is_variant c : existsb (String.eqb (tag c)) command_variants = true.
 Proof. destruct c; vm_compute; reflexivity. Qed.
+
+(* ------------------------------------------------------------------ C01: the reachable-state invariant *)
+
+Lemma Inv_upd s now k oe : Inv (s, now) → oentry_ok now oe → Inv (upd s k oe, now).
+Proof.
+  intros HI Ho k' e. simpl. destruct (decide (k = k')) as [->|Hne].
+  - rewrite upd_lookup. intros ->. exact Ho.
+  - rewrite upd_lookup_ne by done. apply HI.
+Qed.
+
+Lemma Inv_lookup s now k : Inv (s, now) → oentry_ok now (s !! k).
+Proof. intros HI. destruct (s !! k) eqn:E; simpl; [by apply (HI k)|done]. Qed.
+
+Lemma Inv_insert s now k e : Inv (s, now) → entry_ok now e → Inv (<[k:=e]> s, now).
+Proof. intros HI He. apply (Inv_upd s now k (Some e)); done. Qed.
+Lemma Inv_delete s now k : Inv (s, now) → Inv (delete k s, now).
+Proof. intros HI. apply (Inv_upd s now k None); done. Qed.
+
+Lemma Inv_advance s now t : Inv (s, now) → Inv (advance s t, t).
+Proof.
+  intros HI k e. simpl. rewrite advance_lookup. destruct (s !! k) as [e'|] eqn:E; [|done].
+  unfold alive. destruct e' as [v [d|]]; simpl.
+  - destruct (N.ltb_spec t d); [|done]. intros [= <-]. split; simpl; [|done]. by apply (HI k _ E).
+  - intros [= <-]. split; simpl; [|done]. by apply (HI k _ E).
+Qed.
+
+Lemma Inv_mset s now kvs : Inv (s, now) → Inv (mset_all s kvs, now).
+Proof.
+  unfold mset_all. revert s. induction kvs as [|p kvs IH]; intros s HI; simpl; [done|].
+  apply IH. apply Inv_insert; [done|]. split; done.
+Qed.
+
+Lemma Inv_del s now ks : Inv (s, now) → Inv ((del_all s ks).1, now).
+Proof.
+  unfold del_all. generalize 0. revert s. induction ks as [|k ks IH]; intros s n HI; simpl; [done|].
+  destruct (is_some (s !! k)); apply IH; [by apply Inv_delete | done].
+Qed.
+
+Lemma Inv_rename s now a b nx : Inv (s, now) → Inv ((c_rename s a b nx).1, now).
+Proof.
+  intros HI. unfold c_rename. destruct (s !! a) as [e|] eqn:E; [|done].
+  destruct (bool_decide (a = b)); [done|]. destruct (nx && is_some (s !! b)); [done|]. simpl.
+  apply Inv_insert; [by apply Inv_delete | by apply (HI a)].
+Qed.
+
+Lemma push_end_nonempty tl (x : list N) l : value_nonempty (VList (push_end tl x l)) = true.
+Proof. destruct tl; simpl; [done|]. by destruct l. Qed.
+
+Lemma Inv_lmove s now a b fl tl : Inv (s, now) → Inv ((c_lmove s a b fl tl).1, now).
+Proof.
+  intros HI. unfold c_lmove. destruct (s !! a) as [[[] d]|] eqn:E; try done.
+  destruct (pop_end fl l) as [[x r]|]; [|done].
+  pose proof (HI a _ E) as [_ Hd]. simpl in Hd.
+  destruct (bool_decide (a = b)).
+  - simpl. apply Inv_insert; [done|]. split; [apply push_end_nonempty | done].
+  - destruct (s !! b) as [[[] dd]|] eqn:Eb; try done; simpl.
+    + apply Inv_insert; [apply Inv_upd; [done | by apply mk_ok]|].
+      split; [apply push_end_nonempty | by apply (HI b _ Eb)].
+    + apply Inv_insert; [apply Inv_upd; [done | by apply mk_ok]|]. split; done.
+Qed.
+
+(* one command keeps the invariant *)
+Lemma Inv_exec dl s now c : Inv (s, now) → Inv ((exec dl s now c).1, now).
+Proof.
+  intros HI. unfold exec. destruct (cmd_reject c); [done|].
+  unfold exec_wf. destruct (key_fun dl now c) as [[k f]|] eqn:K.
+  - unfold on_key. destruct (f (s !! k)) as [oe r] eqn:F. simpl.
+    apply Inv_upd; [done|].
+    pose proof (key_fun_ok dl now c k f (s !! k) K (Inv_lookup s now k HI)) as Ho. by rewrite F in Ho.
+  - destruct c; simpl in K; try discriminate; simpl; try done.
+    + by apply Inv_mset.
+    + destruct (existsb _ _); [done|]. by apply Inv_mset.
+    + pose proof (Inv_del s now ks HI). by destruct (del_all s ks).
+    + by apply Inv_rename.
+    + by apply Inv_rename.
+    + by apply Inv_lmove.
+    + by apply Inv_lmove.
+Qed.
+
+Lemma Inv_step dl st o : Inv st → Inv (step dl st o).
+Proof.
+  destruct st as [s now]. intros HI. destruct o; simpl; [by apply (Inv_advance s now) | by apply Inv_exec].
+Qed.
+
+Lemma Inv_run_from dl st ops : Inv st → Inv (run_from dl st ops).
+Proof.
+  unfold run_from. revert st. induction ops as [|o ops IH]; intros st HI; simpl; [done|].
+  apply IH. by apply Inv_step.
+Qed.
+
+(* every reachable state: no empty collection, every stored deadline after the last clock reading *)
+Theorem reach_inv_lemma : ∀ dl ops, Inv (run dl ops).
+Proof. intros. apply Inv_run_from. intros k e. simpl. by rewrite lookup_empty. Qed.
+
+(* what "non-empty" means *)
+Lemma value_nonempty_spec v :
+  value_nonempty v = true ↔
+  match v with
+  | VStr _ => True
+  | VList l => l ≠ []
+  | VSet s => s ≠ ∅
+  | VHash h => h ≠ ∅
+  | VZSet z => z ≠ ∅
+  end.
+Proof.
+  destruct v; simpl.
+  - done.
+  - destruct l; split; done.
+  - destruct (elements s) eqn:E.
+    + apply elements_empty_inv in E. apply leibniz_equiv in E. subst. split; done.
+    + split; [|done]. intros _ ->. by rewrite elements_empty in E.
+  - destruct (map_to_list h) eqn:E.
+    + apply map_to_list_empty_iff in E. subst. split; done.
+    + split; [|done]. intros _ ->. by rewrite map_to_list_empty in E.
+  - destruct (map_to_list z) eqn:E.
+    + apply map_to_list_empty_iff in E. subst. split; done.
+    + split; [|done]. intros _ ->. by rewrite map_to_list_empty in E.
+Qed.
+
+(* a collection that becomes empty stops existing: after any command (from any state satisfying
+   the invariant, in particular any reachable state) no key holds an empty collection, and a key
+   that is absent is reported absent by TYPE, EXISTS, TTL and PTTL *)
+Theorem empty_collection_vanishes_lemma : ∀ dl s now c k v d,
+  Inv (s, now) → (exec dl s now c).1 !! k = Some (v, d) →
+  match v with
+  | VStr _ => True | VList l => l ≠ [] | VSet x => x ≠ ∅ | VHash h => h ≠ ∅ | VZSet z => z ≠ ∅
+  end.
+Proof.
+  intros dl s now c k v d HI E. apply value_nonempty_spec.
+  by destruct (Inv_exec dl s now c HI k _ E).
+Qed.
+
+Lemma absent_observations_lemma : ∀ dl (s : gmap (list N) (value * option N)) now k, s !! k = None →
+  (exec dl s now (TypeOf k)).2 = RSimple type_none ∧ (exec dl s now (ExistsC [k])).2 = RInt 0 ∧
+  (exec dl s now (Ttl k)).2 = RInt (-2) ∧ (exec dl s now (Pttl k)).2 = RInt (-2) ∧
+  (exec dl s now (Get k)).2 = RBulk None.
+Proof.
+  intros dl s now k E. unfold exec, exec_wf, on_key, count_existing. simpl. rewrite E. simpl.
+  repeat split; try done. rewrite filter_cons, E. done.
+Qed.
+
+(* popping the last element, removing the last member, deleting the last field: the key is gone *)
+Lemma last_element_gone_lemma : ∀ dl (s : gmap (list N) (value * option N)) now k x d,
+  (s !! k = Some (VList [x], d) → (exec dl s now (LPop k)).1 !! k = None ∧ (exec dl s now (RPop k)).1 !! k = None) ∧
+  (s !! k = Some (VSet {[x]}, d) → (exec dl s now (SRem k [x])).1 !! k = None) ∧
+  (∀ y, s !! k = Some (VHash {[x := y]}, d) → (exec dl s now (HDel k [x])).1 !! k = None) ∧
+  (∀ z, s !! k = Some (VZSet {[x := z]}, d) → (exec dl s now (ZRem k [x])).1 !! k = None).
+Proof.
+  intros dl s now k x d. unfold exec, exec_wf, on_key, c_srem, c_hdel, c_zrem, srem_all, hdel_all, zrem_all. simpl. repeat split.
+  - rewrite H. simpl. apply lookup_delete.
+  - rewrite H. simpl. apply lookup_delete.
+  - intros H. rewrite H. simpl. unfold srem_all. simpl. rewrite bool_decide_true by set_solver.
+    replace ({[x]} ∖ {[x]} : gset (list N)) with (∅ : gset (list N)) by set_solver.
+    unfold mk. simpl. rewrite elements_empty. simpl. apply lookup_delete.
+  - intros y H. rewrite H. simpl. unfold hdel_all. simpl. rewrite lookup_singleton. simpl. rewrite delete_singleton.
+    unfold mk. simpl. rewrite map_to_list_empty. simpl. apply lookup_delete.
+  - intros z H. rewrite H. simpl. unfold zrem_all. simpl. rewrite lookup_singleton. simpl. rewrite delete_singleton.
+    unfold mk. simpl. rewrite map_to_list_empty. simpl. apply lookup_delete.
+Qed.
+
+(* ------------------------------------------------------------------ C01: key locality (frame lemma) *)
+
+(* two states agree on a list of keys *)
+Definition agree_on (ks : list (list N)) (s1 s2 : gmap (list N) (value * option N)) : Prop :=
+  ∀ k, k ∈ ks → s1 !! k = s2 !! k.
+
+Lemma agree_insert K s1 s2 a e : agree_on K s1 s2 → agree_on K (<[a:=e]> s1) (<[a:=e]> s2).
+Proof.
+  intros H k Hk. destruct (decide (a = k)) as [->|].
+  - by rewrite !lookup_insert.
+  - rewrite !lookup_insert_ne by done. by apply H.
+Qed.
+Lemma agree_delete K s1 s2 a : agree_on K s1 s2 → agree_on K (delete a s1) (delete a s2).
+Proof.
+  intros H k Hk. destruct (decide (a = k)) as [->|].
+  - by rewrite !lookup_delete.
+  - rewrite !lookup_delete_ne by done. by apply H.
+Qed.
+Lemma agree_upd K s1 s2 a oe : agree_on K s1 s2 → agree_on K (upd s1 a oe) (upd s2 a oe).
+Proof. destruct oe; simpl; [apply agree_insert | apply agree_delete]. Qed.
+
+Lemma on_key_local K s1 s2 k f : k ∈ K → agree_on K s1 s2 →
+  (on_key s1 k f).2 = (on_key s2 k f).2 ∧ agree_on K (on_key s1 k f).1 (on_key s2 k f).1.
+Proof.
+  intros Hk Ha. unfold on_key. rewrite <- (Ha k Hk). destruct (f (s1 !! k)); simpl.
+  split; [done | by apply agree_upd].
+Qed.
+Lemma on_key_frame s k f k' : k' ≠ k → (on_key s k f).1 !! k' = s !! k'.
+Proof. intros. unfold on_key. destruct (f (s !! k)); simpl. by apply upd_lookup_ne. Qed.
+
+Lemma mset_local K s1 s2 kvs : agree_on K s1 s2 → agree_on K (mset_all s1 kvs) (mset_all s2 kvs).
+Proof.
+  unfold mset_all. revert s1 s2. induction kvs as [|p kvs IH]; intros s1 s2 H; simpl; [done|].
+  apply IH. by apply agree_insert.
+Qed.
+Lemma mset_frame s kvs k : k ∉ kvs.*1 → mset_all s kvs !! k = s !! k.
+Proof.
+  unfold mset_all. revert s. induction kvs as [|p kvs IH]; intros s H; simpl; [done|].
+  rewrite fmap_cons, not_elem_of_cons in H. destruct H as [H1 H2].
+  rewrite IH by done. by rewrite lookup_insert_ne.
+Qed.
+
+Lemma exists_any_local s1 s2 (kvs : list (list N * list N)) : agree_on kvs.*1 s1 s2 →
+  existsb (λ p, is_some (s1 !! p.1)) kvs = existsb (λ p, is_some (s2 !! p.1)) kvs.
+Proof.
+  induction kvs as [|p kvs IH]; intros H; simpl; [done|].
+  rewrite (H p.1) by (rewrite fmap_cons; left). f_equal. apply IH.
+  intros k Hk. apply H. rewrite fmap_cons. by right.
+Qed.
+
+Definition del_step (a : gmap (list N) (value * option N) * Z) (k : list N) :=
+  let '(s, n) := a in if is_some (s !! k) then (delete k s, n + 1) else (s, n).
+
+Lemma del_all_eq s ks : del_all s ks = fold_left del_step ks (s, 0).
+Proof.
+  unfold del_all. generalize 0. revert s. induction ks as [|k ks IH]; intros s n; simpl; [done|].
+  destruct (is_some (s !! k)); apply IH.
+Qed.
+
+Lemma del_local K ks : ∀ s1 s2 n, (∀ k, k ∈ ks → k ∈ K) → agree_on K s1 s2 →
+  (fold_left del_step ks (s1, n)).2 = (fold_left del_step ks (s2, n)).2 ∧
+  agree_on K (fold_left del_step ks (s1, n)).1 (fold_left del_step ks (s2, n)).1.
+Proof.
+  induction ks as [|k ks IH]; intros s1 s2 n Hsub H; simpl; [done|].
+  rewrite <- (H k) by (apply Hsub; left).
+  destruct (is_some (s1 !! k)); apply IH; try done.
+  - intros; apply Hsub; by right.
+  - by apply agree_delete.
+  - intros; apply Hsub; by right.
+Qed.
+Lemma del_frame ks : ∀ s n k, k ∉ ks → (fold_left del_step ks (s, n)).1 !! k = s !! k.
+Proof.
+  induction ks as [|a ks IH]; intros s n k H; simpl; [done|].
+  rewrite not_elem_of_cons in H. destruct H as [H1 H2].
+  destruct (is_some (s !! a)); rewrite IH by done; [by rewrite lookup_delete_ne | done].
+Qed.
+
+Lemma count_local s1 s2 ks : agree_on ks s1 s2 → count_existing s1 ks = count_existing s2 ks.
+Proof.
+  unfold count_existing, zlen. intros H. f_equal. f_equal.
+  induction ks as [|k ks IH]; [done|].
+  rewrite !filter_cons. rewrite <- (H k) by left.
+  rewrite IH; [done|]. intros k' Hk'. apply H. by right.
+Qed.
+
+Lemma rename_local s1 s2 a b nx : agree_on [a; b] s1 s2 →
+  (c_rename s1 a b nx).2 = (c_rename s2 a b nx).2 ∧
+  agree_on [a; b] (c_rename s1 a b nx).1 (c_rename s2 a b nx).1.
+Proof.
+  intros H. unfold c_rename.
+  rewrite <- (H a) by set_solver. rewrite <- (H b) by set_solver.
+  destruct (s1 !! a); [|done]. destruct (bool_decide (a = b)); [done|].
+  destruct (nx && is_some (s1 !! b)); [done|]. simpl. split; [done|].
+  apply agree_insert, agree_delete, H.
+Qed.
+Lemma rename_frame s a b nx k : k ∉ [a; b] → (c_rename s a b nx).1 !! k = s !! k.
+Proof.
+  intros H. assert (k ≠ a ∧ k ≠ b) as [Ha Hb] by set_solver. unfold c_rename.
+  destruct (s !! a); [|done]. destruct (bool_decide (a = b)); [done|].
+  destruct (nx && is_some (s !! b)); [done|]. simpl.
+  rewrite lookup_insert_ne by done. by rewrite lookup_delete_ne.
+Qed.
+
+Lemma lmove_local s1 s2 a b fl tl : agree_on [a; b] s1 s2 →
+  (c_lmove s1 a b fl tl).2 = (c_lmove s2 a b fl tl).2 ∧
+  agree_on [a; b] (c_lmove s1 a b fl tl).1 (c_lmove s2 a b fl tl).1.
+Proof.
+  intros H. unfold c_lmove.
+  rewrite <- (H a) by set_solver. rewrite <- (H b) by set_solver.
+  destruct (s1 !! a) as [[[] d]|]; try done.
+  destruct (pop_end fl l) as [[x r]|]; [|done].
+  destruct (bool_decide (a = b)).
+  - simpl. split; [done|]. by apply agree_insert.
+  - destruct (s1 !! b) as [[[] dd]|]; try done; simpl; (split; [done|]);
+      apply agree_insert, agree_upd, H.
+Qed.
+Lemma lmove_frame s a b fl tl k : k ∉ [a; b] → (c_lmove s a b fl tl).1 !! k = s !! k.
+Proof.
+  intros H. assert (k ≠ a ∧ k ≠ b) as [Ha Hb] by set_solver. unfold c_lmove.
+  destruct (s !! a) as [[[] d]|]; try done.
+  destruct (pop_end fl l) as [[x r]|]; [|done].
+  destruct (bool_decide (a = b)).
+  - simpl. by rewrite lookup_insert_ne.
+  - destruct (s !! b) as [[[] dd]|]; try done; simpl;
+      rewrite lookup_insert_ne by done; by rewrite upd_lookup_ne.
+Qed.
+
+Lemma cmd_keys_single dl now c k f : key_fun dl now c = Some (k, f) → cmd_keys c = Some [k].
+Proof. destruct c; simpl; intros H; inversion H; reflexivity. Qed.
+
+(* A command whose key list is [ks] (every command except KEYS, DBSIZE, FLUSHDB, FLUSHALL):
+   its reply and what it leaves at [ks] depend only on what the state holds at [ks], and it
+   touches no other key. *)
+Theorem key_local_lemma : ∀ dl c ks, cmd_keys c = Some ks → ∀ s1 s2 now, agree_on ks s1 s2 →
+  (exec dl s1 now c).2 = (exec dl s2 now c).2 ∧
+  agree_on ks (exec dl s1 now c).1 (exec dl s2 now c).1 ∧
+  ∀ k, k ∉ ks → (exec dl s1 now c).1 !! k = s1 !! k.
+Proof.
+  intros dl c ks Hks s1 s2 now Ha. unfold exec. destruct (cmd_reject c); [done|].
+  unfold exec_wf. destruct (key_fun dl now c) as [[k f]|] eqn:K.
+  - rewrite (cmd_keys_single _ _ _ _ _ K) in Hks. injection Hks as <-.
+    destruct (on_key_local [k] s1 s2 k f) as [H1 H2]; [set_solver | done |].
+    split; [done|]. split; [done|]. intros k' Hk'. apply on_key_frame. set_solver.
+  - destruct c; simpl in K; try discriminate; simpl in Hks; try discriminate; injection Hks as <-; simpl.
+    + (* MGET *) split; [|done]. f_equal. apply map_ext_in. intros k Hk. unfold mget_one.
+      rewrite (Ha k); [done|]. by apply elem_of_list_In.
+    + (* MSET *) split; [done|]. split; [by apply mset_local|]. intros; by apply mset_frame.
+    + (* MSETNX *) rewrite <- (exists_any_local s1 s2 kvs Ha).
+      destruct (existsb _ kvs); [done|]. split; [done|]. split; [by apply mset_local|].
+      intros; by apply mset_frame.
+    + (* DEL *) rewrite !del_all_eq.
+      destruct (del_local ks0 ks0 s1 s2 0) as [H1 H2]; [done | done |].
+      pose proof (del_frame ks0 s1 0) as H3.
+      destruct (fold_left del_step ks0 (s1, 0)), (fold_left del_step ks0 (s2, 0)). simpl in *.
+      split; [by f_equal|]. done.
+    + (* EXISTS *) split; [|done]. f_equal. by apply count_local.
+    + (* RENAME *) destruct (rename_local s1 s2 a b false Ha). split; [done|]. split; [done|].
+      intros; by apply rename_frame.
+    + destruct (rename_local s1 s2 a b true Ha). split; [done|]. split; [done|].
+      intros; by apply rename_frame.
+    + (* RPOPLPUSH / LMOVE *) destruct (lmove_local s1 s2 a b false true Ha). split; [done|]. split; [done|].
+      intros; by apply lmove_frame.
+    + destruct (lmove_local s1 s2 a b from_left to_left Ha). split; [done|]. split; [done|].
+      intros; by apply lmove_frame.
+Qed.
+
+(* ------------------------------------------------------------------ the two dialects *)
+
+(* outside the named class the implementation as built IS the reference *)
+Theorem dialect_eq_outside_class_lemma : ∀ s now c,
+  known_dev s c = false → exec AsBuilt s now c = exec Redis s now c.
+Proof.
+  intros s now c H. unfold exec. destruct (cmd_reject c); [done|]. unfold exec_wf.
+  destruct c; try reflexivity; simpl in *; unfold on_key.
+  - (* GETSET *) unfold c_getset. destruct (s !! k) as [[[] [d|]]|]; simpl in *; done.
+  - (* GETRANGE *) unfold c_getrange. destruct (s !! k) as [[[] d]|]; simpl in *; try done.
+    unfold getrange. destruct b0 as [|x r]; simpl in *.
+    + destruct ((a <? 0) && (b <? 0) && (a >? b)); [|done].
+      repeat case_match; try done; simpl in *; lia.
+    + rewrite H. done.
+Qed.
+
+Definition dev_getset_state : gmap (list N) (value * option N) := {[ [97%N] := (VStr [120%N], Some 1000%N) ]}.
+Definition dev_getrange_state : gmap (list N) (value * option N) := {[ [97%N] := (VStr [49%N], None) ]}.
+
+(* inside the class the two differ: known findings C01-getset-keeps-ttl, C01-getrange-negative-order *)
+Lemma getset_keeps_ttl_refuted_lemma :
+  known_dev dev_getset_state (GetSet [97%N] [121%N]) = true ∧
+  (exec Redis dev_getset_state 0 (GetSet [97%N] [121%N])).1 !! [97%N] = Some (VStr [121%N], None) ∧
+  (exec AsBuilt dev_getset_state 0 (GetSet [97%N] [121%N])).1 !! [97%N] = Some (VStr [121%N], Some 1000%N).
+Proof. vm_compute. done. Qed.
+
+Lemma getrange_negative_order_refuted_lemma :
+  known_dev dev_getrange_state (GetRange [97%N] (-2) (-5)) = true ∧
+  (exec Redis dev_getrange_state 0 (GetRange [97%N] (-2) (-5))).2 = RBulk (Some []) ∧
+  (exec AsBuilt dev_getrange_state 0 (GetRange [97%N] (-2) (-5))).2 = RBulk (Some [49%N]).
+Proof. vm_compute. done. Qed.
+
+(* ------------------------------------------------------------------ laws that pin the oracle *)
+
+(* LRANGE / LTRIM / ZRANGE index normalisation, for every pair of Z indices: with
+     S = start counted from the end when negative, clamped at 0,
+     E = stop counted from the end when negative, clamped at len-1,
+   the result is exactly the elements at positions S..E (nothing when S > E). *)
+Lemma lrange_lookup_lemma {A} (l : list A) (a b : Z) (i : nat) :
+  let len := zlen l in
+  let S := if a <? 0 then Z.max (len + a) 0 else a in
+  let E := Z.min (if b <? 0 then len + b else b) (len - 1) in
+  lrange l a b !! i = if S + Z.of_nat i <=? E then l !! Z.to_nat (S + Z.of_nat i) else None.
+Proof.
+  intros len S E. unfold lrange, norm_range. fold len. fold S. fold E.
+  assert (0 <= len) by (unfold len, zlen; lia).
+  assert (0 <= S) by (unfold S; destruct (a <? 0) eqn:?; lia).
+  destruct ((S >? E) || (S >=? len)) eqn:C.
+  - rewrite lookup_nil. destruct (Z.leb_spec (S + Z.of_nat i) E); [|done].
+    apply orb_true_iff in C as [C|C]; [lia|].
+    assert (len <= S) by lia. assert (E <= len - 1) by (unfold E; lia). lia.
+  - apply orb_false_iff in C as [C1 C2].
+    destruct (Z.leb_spec (S + Z.of_nat i) E).
+    + rewrite lookup_take by lia. rewrite lookup_drop. f_equal. lia.
+    + rewrite lookup_take_ge by lia. done.
+Qed.
+
+Lemma lrange_all_lemma {A} (l : list A) : lrange l 0 (-1) = l.
+Proof.
+  apply list_eq. intros i. rewrite lrange_lookup_lemma. simpl.
+  assert (zlen l = Z.of_nat (List.length l)) as E by done.
+  destruct (Z.leb_spec (0 + Z.of_nat i) (Z.min (zlen l + -1) (zlen l - 1))).
+  - f_equal. lia.
+  - symmetry. apply lookup_ge_None. unfold length. lia.
+Qed.
+
+(* LINDEX i is the one element LRANGE i i selects *)
+Lemma lindex_lrange_lemma (l : list (list N)) (i : Z) : lindex l i = head (lrange l i i).
+Proof.
+  rewrite head_lookup, lrange_lookup_lemma. unfold lindex, norm_index.
+  assert (0 <= zlen l) by (unfold zlen; lia).
+  change (Z.of_nat 0) with 0. rewrite !Z.add_0_r.
+  destruct (i <? 0) eqn:Hi.
+  - apply Z.ltb_lt in Hi.
+    destruct ((zlen l + i <? 0) || (zlen l + i >=? zlen l)) eqn:C.
+    + apply orb_true_iff in C as [C|C]; [|lia].
+      match goal with |- context [?a <=? ?b] => destruct (Z.leb_spec a b) end; [lia|done].
+    + apply orb_false_iff in C as [C1 C2].
+      match goal with |- context [?a <=? ?b] => destruct (Z.leb_spec a b) end; [|lia].
+      f_equal. lia.
+  - apply Z.ltb_ge in Hi.
+    destruct ((i <? 0) || (i >=? zlen l)) eqn:C.
+    + apply orb_true_iff in C as [C|C]; [lia|].
+      match goal with |- context [?a <=? ?b] => destruct (Z.leb_spec a b) end; [lia|done].
+    + apply orb_false_iff in C as [C1 C2].
+      match goal with |- context [?a <=? ?b] => destruct (Z.leb_spec a b) end; [|lia].
+      done.
+Qed.
+
+(* LTRIM keeps exactly what LRANGE returns *)
+Lemma ltrim_keeps_lrange_lemma l d a b :
+  (c_ltrim a b (Some (VList l, d))).1 = mk (VList (lrange l a b)) d ∧
+  (c_lrange a b (Some (VList l, d))).2 = RArr (map RB (lrange l a b)).
+Proof. done. Qed.
+
+(* GETRANGE with non-negative indices is the same range; with negative indices Redis clamps
+   differently (both ends to 0), which the example pins *)
+Ltac zbool := repeat match goal with
+  | |- context [?a >? ?b] => rewrite (Z.gtb_ltb a b)
+  | |- context [?a >=? ?b] => rewrite (Z.geb_leb a b)
+  | |- context [?a <? ?b] => destruct (Z.ltb_spec a b)
+  | |- context [?a <=? ?b] => destruct (Z.leb_spec a b)
+  | |- context [?a =? ?b] => destruct (Z.eqb_spec a b)
+  end.
+
+Lemma getrange_nonneg_lemma dl (s : list N) a b : 0 <= a → 0 <= b → getrange dl s a b = lrange s a b.
+Proof.
+  intros Ha Hb. unfold getrange, lrange, norm_range.
+  assert (0 <= zlen s) by (unfold zlen; lia).
+  destruct dl; zbool; simpl; try done; try (exfalso; lia);
+    (f_equal; [f_equal; lia | f_equal; f_equal; lia]).
+Qed.
+
+(* INCRBY is exact and fails exactly when the string is not a canonical integer or the sum
+   leaves the i64 range *)
+Lemma incrby_exact_lemma (b : list N) d z :
+  (c_incrby z (Some (VStr b, d))) =
+  match parse_i64 b with
+  | None => (Some (VStr b, d), RErr ENotInteger)
+  | Some cur =>
+      if (I64MIN <=? cur + z) && (cur + z <=? I64MAX)
+      then (Some (VStr (fmt_Z (cur + z)), d), RInt (cur + z))
+      else (Some (VStr b, d), RErr EOverflow)
+  end.
+Proof. reflexivity. Qed.
+
+Lemma incrby_error_iff_lemma (b : list N) d z :
+  is_error (c_incrby z (Some (VStr b, d))).2 = true ↔
+  match parse_i64 b with None => True | Some cur => cur + z < I64MIN ∨ I64MAX < cur + z end.
+Proof.
+  rewrite incrby_exact_lemma. destruct (parse_i64 b) as [cur|]; [|done].
+  destruct (Z.leb_spec I64MIN (cur + z)), (Z.leb_spec (cur + z) I64MAX); simpl; split; try done; lia.
+Qed.
+
+(* a missing key counts as 0 and gets no TTL; an existing TTL survives INCRBY *)
+Lemma incrby_missing_lemma z : c_incrby z None = (Some (VStr (fmt_Z z), None), RInt z).
+Proof. reflexivity. Qed.
+
+(* the SET option table *)
+Lemma set_option_table_lemma now v (oe : option (value * option N)) :
+  (* plain SET: stores the value, discards the TTL, replies OK - whatever was there *)
+  c_set now v XNone false false false oe = (Some (VStr v, None), ROk) ∧
+  (* KEEPTTL keeps the deadline *)
+  c_set now v XKeepTtl false false false oe = (Some (VStr v, entry_deadline oe), ROk) ∧
+  (* NX on an existing key / XX on a missing key: nil, nothing changes *)
+  (is_some oe = true → c_set now v XNone true false false oe = (oe, RNil)) ∧
+  (is_some oe = false → c_set now v XNone false true false oe = (oe, RNil)) ∧
+  (* GET replies the old string (nil if none) and fails on another type without writing *)
+  (holds_nonstr oe = false → c_set now v XNone false false true oe = (Some (VStr v, None), old_str oe)) ∧
+  (holds_nonstr oe = true → c_set now v XNone false false true oe = (oe, RErr EWrongType)) ∧
+  (* PX ms: deadline now + ms; non-positive or overflowing ms is refused before anything else *)
+  (∀ ms, 0 < ms → ms + Z.of_N now <= I64MAX →
+     c_set now v (XPx ms) false false false oe = (Some (VStr v, Some (Z.to_N (ms + Z.of_N now))), ROk)) ∧
+  (∀ ms nx xx get, ms <= 0 → c_set now v (XPx ms) nx xx get oe = (oe, RErr EInvalidExpire)) ∧
+  (* PXAT t: deadline t; a deadline that is not in the future deletes the key *)
+  (∀ t, Z.of_N now < t → c_set now v (XPxAt t) false false false oe = (Some (VStr v, Some (Z.to_N t)), ROk)) ∧
+  (∀ t, 0 < t → t <= Z.of_N now → c_set now v (XPxAt t) false false false oe = (None, ROk)).
+Proof.
+  repeat split; intros.
+  all: try (destruct oe as [[[] ?]|]; simpl in *; done).
+  all: unfold c_set, xopt_when, with_deadline; zbool; simpl; try done; try lia.
+  all: zbool; simpl; try done; try lia.
+Qed.
+
+(* TTL rounds the remaining milliseconds to the nearest second; PTTL is exact *)
+Lemma ttl_rounding_lemma now v (d : N) : (now < d)%N →
+  (c_ttl now false false (Some (v, Some d))).2 = RInt ((Z.of_N d - Z.of_N now + 500) / 1000) ∧
+  (c_ttl now true false (Some (v, Some d))).2 = RInt (Z.of_N d - Z.of_N now) ∧
+  (c_ttl now false true (Some (v, Some d))).2 = RInt ((Z.of_N d + 500) / 1000) ∧
+  (c_ttl now true true (Some (v, Some d))).2 = RInt (Z.of_N d).
+Proof. intros H. unfold c_ttl. simpl. rewrite Z.max_r by lia. done. Qed.
+
+(* EXPIRE family: the option table (NX XX GT LT), then "not in the future => delete" *)
+Lemma expire_table_lemma now w v (d : option N) nx xx gt lt :
+  c_expire_at now w nx xx gt lt (Some (v, d)) =
+  if (nx && is_some d) || (xx && negb (is_some d))
+     || (gt && match d with Some c => w <=? Z.of_N c | None => true end)
+     || (lt && match d with Some c => w >=? Z.of_N c | None => false end)
+  then (Some (v, d), RInt 0)
+  else (if w <=? Z.of_N now then None else Some (v, Some (Z.to_N w)), RInt 1).
+Proof.
+  unfold c_expire_at, with_deadline.
+  destruct (nx && is_some d); [done|]. destruct (xx && negb (is_some d)); [done|].
+  destruct (gt && _); [done|]. destruct (lt && _); done.
+Qed.
+
+(* ------------------------------------------------------------------ concrete instances *)
+
+Definition ex_ops : list op :=
+  [ OCmd (SetC [107%N] [49%N; 48%N] (XPx 100) false false false);   (* SET k 10 PX 100 *)
+    OCmd (Incr [107%N]);                                               (* INCR k -> 11 *)
+    OCmd (RPush [108%N] [[97%N]; [98%N]]);                             (* RPUSH l a b *)
+    OTick 99%N;
+    OCmd (LPop [108%N]);
+    OCmd (LPop [108%N]);                                               (* list becomes empty *)
+    OTick 100%N ].                                                     (* k expires *)
+
+Lemma ex_run_lemma :
+  (run Redis (firstn 4 ex_ops)).1 !! [107%N] = Some (VStr [49%N; 49%N], Some 100%N) ∧
+  (run Redis (firstn 4 ex_ops)).1 !! [108%N] = Some (VList [[97%N]; [98%N]], None) ∧
+  (run Redis (firstn 6 ex_ops)).1 !! [108%N] = None ∧
+  map_to_list (run Redis ex_ops).1 = [] ∧ (run Redis ex_ops).2 = 100%N.
+Proof. vm_compute. done. Qed.
+
+Lemma ex_error_lemma :
+  let s := (run Redis (firstn 3 ex_ops)).1 in
+  (exec Redis s 0 (IncrBy [108%N] 5)).2 = RErr EWrongType ∧
+  (exec Redis s 0 (RPopLPush [108%N] [107%N])).2 = RErr EWrongType ∧
+  (exec Redis s 0 (LSet [108%N] 7 [120%N])).2 = RErr EIndexOutOfRange ∧
+  (exec Redis s 0 (IncrBy [107%N] I64MAX)).2 = RErr EOverflow ∧
+  ro_impl (tag (LRange [108%N] 0 (-1))) = true ∧ ro_impl (tag (LPop [108%N])) = false.
+Proof. vm_compute. done. Qed.
